@@ -391,6 +391,13 @@ class Implicit:
                     out.append(("ext:ValueError", n, "chr(%s)" % norm(n.args[0])[:40]))
                 elif name == "next" and len(n.args) == 1:
                     out.append(("ext:StopIteration", n, norm(n)))
+                elif last == "reduce" and name in ("reduce", "functools.reduce") and len(n.args) == 2:
+                    # reduce(f, xs) without an initial value raises TypeError on an empty xs
+                    why = self._never_empty(fn, n.args[1])
+                    if why:
+                        self._record(fn, n, why)
+                    else:
+                        out.append(("ext:TypeError", n, "reduce(..., %s) of a possibly empty iterable without an initial value%s" % (norm(n.args[1])[:30], ("; not dischargeable because " + self._why_not) if getattr(self, "_why_not", "") else "")))
                 elif last in ("log2", "log", "sqrt") and name.startswith("math.") and n.args:
                     if not self._positive_arg(fn, n.args[0], n):
                         out.append(("ext:ValueError", n, norm(n)[:50]))
@@ -422,6 +429,52 @@ class Implicit:
         return out
 
     # ---- discharges
+    def _never_empty(self, fn: FuncInfo, it: ast.AST) -> str:
+        """`it` is `self` of a class whose instances are never empty: the constructor rejects an empty collection with an
+        InvalidDefinitionError (evaluated), iteration yields what the constructor stored (evaluated), and no code creates an
+        instance without the constructor or stores the constructor's fields elsewhere"""
+        from ..absint import Raised, construct
+        from ..exprmodel import ExprModel, QV
+        from ..fold import Unfoldable
+
+        self._why_not = ""
+        if not (isinstance(it, ast.Name) and it.id == "self" and fn.cls is not None):
+            return ""
+        cls = fn.cls
+        repo = self.repo
+        m = ExprModel(self.ctx)
+        try:
+            try:
+                construct(self.ctx, cls, [], hook=m.hook)
+                return ""
+            except Raised as r:
+                k = next((c for c in repo.all_classes().values() if c.name == r.cls_name), None)
+                if k is None or not repo.is_subclass(k, IDE):
+                    return ""
+            one = m.value("Rational", QV("x", True))
+            inst = construct(self.ctx, cls, [one], hook=m.hook)
+            if m.elements(inst) != [one]:
+                return ""
+        except (Unfoldable, AnalysisError):
+            return ""
+        init = repo.lookup_method(cls, "__init__")
+        fields = {dotted(t).split(".")[1] for st in ast.walk(init.node) if isinstance(st, (ast.Assign, ast.AnnAssign)) for t in (st.targets if isinstance(st, ast.Assign) else [st.target]) if (dotted(t) or "").startswith("self.") and (dotted(t) or "").count(".") == 1} if init else set()
+        for f2 in repo.all_functions().values():
+            for x in ast.walk(f2.node):
+                if isinstance(x, ast.Call) and isinstance(x.func, ast.Attribute) and x.func.attr == "__new__":
+                    tgt = [norm(a) for a in x.args[:1]] + [norm(x.func.value)]
+                    if any(t.split(".")[-1] in (cls.name, "cls", "type(self)", "self.__class__") or t in ("object",) and any(norm(a).split(".")[-1] == cls.name for a in x.args) for t in tgt):
+                        self._why_not = "%s creates an instance without the constructor (%s)" % (f2.short, norm(x)[:40])
+                        return ""
+                if f2 is init or (f2.cls is not None and f2.name == "__init__" and f2.cls is cls):
+                    continue
+                if isinstance(x, (ast.Assign, ast.AugAssign, ast.AnnAssign)) and f2.module is cls.module:
+                    for t in x.targets if isinstance(x, ast.Assign) else [x.target]:
+                        if isinstance(t, ast.Attribute) and t.attr in fields:
+                            self._why_not = "%s stores the constructor's field %s" % (f2.short, t.attr)
+                            return ""
+        return "%s is never empty: %s([]) is rejected with an invalid-definition error, iteration yields the stored elements, no construction bypasses __init__ and its fields are stored nowhere else" % (cls.name, cls.name)
+
     def _record(self, fn: FuncInfo, n: ast.AST, why: str) -> bool:
         self.discharged.append({"site": "%s:%d" % (fn.short, getattr(n, "lineno", 0)), "op": norm(n)[:60], "discharge": why})
         return True
